@@ -297,6 +297,17 @@ def step (st : State) (w : List String) : State × String :=
     let addrs := leader.addr :: res.map (·.addr)
     let alias := addrs.length != addrs.eraseDups.length
     (st, s!"ids={",".intercalate (res.map fun m => toString m.id)} alias={boolStr alias} errs=0")
+  | ["fw", "run", id, modes, _proto] =>
+    match id.toNat? with
+    | some i =>
+      let outs : List FoOutcome := ((modes.splitOn ",").zipIdx).map fun (m, k) =>
+        if m == "sf" then FoOutcome.resp (50000 + k) 2 0
+        else if m == "ok" then FoOutcome.resp (50000 + k) 0 (10 + k)
+        else if m == "nx" then FoOutcome.resp (50000 + k) 3 0
+        else FoOutcome.err
+      let w := forwardWrite outs i
+      (st, s!"n=1 id={w.id} rcode={w.rcode} a={w.mark}")
+    | none => (st, "bad-op")
   | ["pool", "subq", pat] =>
     -- a sub-query whose handler writes nothing returns no response, whatever the pooled writer carried before
     let outs := (pat.toList.zipIdx).map fun (c, i) => if c == 'w' then toString (100 + i) else "none"
